@@ -117,9 +117,10 @@ def judge(ctx, rec, res):
         t = [[x[1] for x in rec.outs[i][1]] for i in range(4)]
         res.evals += 1
         ok = selftest.isogeny_identity(f, iso.a, iso.b, 4 if g == 1 else (4, 4), t[0], t[1], t[2], t[3])
-        deg = len(t[0]) - 1
-        res.info["live tables: polynomial identity holds, deg XN = %d" % deg] += 1
-        if not ok or deg != (11 if g == 1 else 3) or t[1][-1] != f.one or t[3][-1] != f.one:
+        tt = [selftest._ptrim(f, list(x)) for x in t]
+        deg = max(len(tt[0]) - 1, len(tt[1]))      # degree of the x-map = max(deg XN, deg XD + ...) ; XD has degree deg-1
+        res.info["live tables: polynomial identity holds, deg XN = %d" % (len(tt[0]) - 1)] += 1
+        if not ok or len(tt[0]) - 1 != (11 if g == 1 else 3) or len(tt[1]) - 1 != (10 if g == 1 else 2):
             return "tables forming a degree-%d rational map E' -> E (polynomial identity)" % (11 if g == 1 else 3)
         res.classes[(rec.op, ctx.build)] += 1
         return None
